@@ -194,7 +194,8 @@ def _get_code(args, v):
         # injected fault: a decode that raises half-way (a code object whose constant / name tables
         # were emptied) must leave nothing behind that changes the next decode
         from ops_const import code_replace
-        for kw in ({"co_consts": ()}, {"co_names": ()}, {"co_varnames": (), "co_nlocals": 0}):
+        for kw in ({"co_consts": code.co_consts[:-1]}, {"co_names": code.co_names[:-1]}, {"co_consts": ()},
+                   {"co_varnames": (), "co_nlocals": 0}):
             try:
                 lib().CodeData.from_code(code_replace(code, **kw))
             except Exception:
